@@ -1,4 +1,5 @@
 import VlsModel.Prim.U64
+import VlsModel.Gen.Enforcement
 import VlsModel.Model.Secrets
 /-
 Executable model of the per-channel enforcement state machine (properties C01, C02, C03).
@@ -39,11 +40,11 @@ namespace VlsModel.Enforcement
 open VlsModel VlsModel.Secrets
 
 /-- `INITIAL_COMMITMENT_NUMBER = (1 << 48) - 1` -/
-def INITIAL : Nat := 281474976710655
+def INITIAL : Nat := Gen.Enforcement.INITIAL_COMMITMENT_NUMBER   -- regenerated from vls-core/src/util/mod.rs
 
 /-- hsmd protocol versions at which behaviour changes (handler.rs) -/
-def PROTOCOL_VERSION_REVOKE : Nat := 5
-def PROTOCOL_VERSION_NO_SECRET : Nat := 6
+def PROTOCOL_VERSION_REVOKE : Nat := Gen.Enforcement.PROTOCOL_VERSION_REVOKE       -- vls-protocol/src/msgs.rs
+def PROTOCOL_VERSION_NO_SECRET : Nat := Gen.Enforcement.PROTOCOL_VERSION_NO_SECRET
 
 inductive SlotKind where
   | stub | ready
